@@ -215,7 +215,7 @@ func checkMessage(payload, wire []byte, psize, hdrType, chanId, firstNr int, cur
 	}
 	type pk struct {
 		typ, status, length, channel, nr, window int
-		body                                    []byte
+		body                                     []byte
 	}
 	var pks []pk
 	rest := wire
@@ -409,6 +409,16 @@ func init() {
 				ps := 256 + rng.Intn(3000)
 				emitMsgs("random", ps, rng.Intn(2)*7, 250+rng.Intn(6), []int{1 + rng.Intn(4*ps)}, 2, 0)
 			}
+			// several channels of one connection sending at the same time (C12's scenario, judged by its oracle):
+			// what reaches the shared transport must still parse as consecutive packets, each channel's
+			// packets with its id, consecutive numbers and its data intact — no packet is torn by another's
+			nconc := 25
+			if tier == "thorough" {
+				nconc = 400
+			}
+			for i := 0; i < nconc; i++ {
+				emit(Case{Line: fmt.Sprintf("mux tx %d %d %d", 2+rng.Intn(7), 2+rng.Intn(8), rng.Intn(1<<30)), Kind: "concurrent-channels"})
+			}
 			if tier == "thorough" {
 				// every packet size 256..65535 (step 1 up to 4096, then sampled) x 3 boundary lengths x k in {1,2}
 				for ps := 256; ps <= 65535; ps++ {
@@ -423,12 +433,28 @@ func init() {
 				}
 			}
 		},
-		Impl:   txImpl,
-		Oracle: txOracle,
-		Agree:  func(m, i string) bool { return m == txStrip(i) },
+		Impl: func(line string) string {
+			if strings.HasPrefix(line, "mux ") {
+				return muxImpl(line)
+			}
+			return txImpl(line)
+		},
+		NoModel: func(line string) bool { return strings.HasPrefix(line, "mux ") },
+		Oracle: func(line, out string) string {
+			if strings.HasPrefix(line, "mux ") {
+				if strings.HasPrefix(out, "ok") {
+					return ""
+				}
+				return "with several channels sending at once the bytes reaching the transport still parse as consecutive packets (" + clip(out, 100) + ")"
+			}
+			return txOracle(line, out)
+		},
+		Agree:      func(m, i string) bool { return m == txStrip(i) },
 		FindingKey: func(line, out, clause string) string { return clause },
-		Nontrivial: func(line, out string) bool { return strings.Count(out, "/") >= 4 },
-		Rule:       "messages through the real Channel (QueuePackage/SendRemainingPackets/SendPackage of TokenlessPackages) over a capturing transport: packet sizes {256,257,511,512,513,2048,65535} x boundary lengths k*(psize-8)+{-1,0,1}, k=0..4, x random splits into 1..4 packages and call splits, channel ids 0 and >0 with random start packet numbers, header types; 2-3 message histories with a packet size change; random sizes; thorough adds a sweep over packet sizes 256..65535. Non-trivial = at least two packets on the wire",
+		Nontrivial: func(line, out string) bool {
+			return strings.HasPrefix(line, "mux ") || strings.Count(out, "/") >= 4
+		},
+		Rule:        "messages through the real Channel (QueuePackage/SendRemainingPackets/SendPackage of TokenlessPackages) over a capturing transport: packet sizes {256,257,511,512,513,2048,65535} x boundary lengths k*(psize-8)+{-1,0,1}, k=0..4, x random splits into 1..4 packages and call splits, channel ids 0 and >0 with random start packet numbers, header types; 2-3 message histories with a packet size change; random sizes; thorough adds a sweep over packet sizes 256..65535. Non-trivial = at least two packets on the wire",
 		Assumptions: []string{"packages are modelled by their encoding (TokenlessPackage with the given bytes); codecs are C06's business", "the transport accepts every write completely"},
 	})
 }
